@@ -3,7 +3,7 @@ from checks import kern, modelstep
 
 TECHNIQUE = "symbolic execution of the real integration methods (Model.update_links/update_comps/flush_junctions and the Compartment/Junction/Timed kernels) on z3-real proxies with state merging and cuts; SMT obligations (z3, cvc5 portfolio); counterexamples replayed on the unpatched code"
 EXPLANATION = 'Real JunctionCompartment/ResidualJunctionCompartment.balance and initial_flush (through Model.update_links / Model.flush_junctions) on fans of 1-4 outflows, with and without a residual link, 1-2 inflows, a chain of two junctions, and flushing into a timed compartment; proportions symbolic in [0,10] (and of any sign in the region-split groups). Obligations: outflow == inflow, junction empty at both indices, split_i * sum(p) == inflow * p_i (plain), split_i * max(1,sum p) == inflow * p_i and residual == inflow * max(0, 1 - sum p) (residual), flush shares and total preservation, through the chain. Bounds: micro-graphs as listed per group; |values| <= 1e9, dt in [1/365,5], timescales in [1e-3,1e3]; real arithmetic (tolerance 1e-9 relative, 1e-8 for C03). Outside: larger fan-outs, float rounding, multi-step interactions other than through the arbitrary pre-state.'
-GROUP_TIMEOUT = {"quick": 900, "thorough": 3000}
+GROUP_TIMEOUT = {"quick": 1800, "thorough": 3600}
 
 
 def groups(tier):
